@@ -71,6 +71,21 @@ def neighbours(x, single):
     return out
 
 
+_SEEN = {}
+
+
+def report(ctx, sig, det, found):
+    """ctx.report, keeping the full detail only for the first reports of a
+    signature that is a known finding (hundreds of thousands of values fall in
+    the D22/D23 classes; each is still counted)"""
+    n, last = _SEEN.get(sig, (0, None))
+    if last == 'known' and n >= 25:
+        det = {k: det[k] for k in ('suite', 'type', 'value', 'text', 'case') if k in det}
+    r = ctx.report(sig, det, found)
+    _SEEN[sig] = (n + 1, r)
+    return r
+
+
 # ---------------------------------------------------------------------------
 # python-side oracle (exact, fractions)
 
@@ -244,7 +259,7 @@ def float_families(ctx, tier):
                         add('boundary%d' % n, ty, y)
     # plain-form magnitudes: integral and fractional values of every size
     rng = frng(ctx, 'plain')
-    for _ in range(30000 if thorough else 1500):
+    for _ in range(15000 if thorough else 1500):
         nd = rng.randint(1, 17)
         z = rng.randrange(10 ** (nd - 1), 10 ** nd)
         sh = rng.randint(0, 20)
@@ -367,7 +382,7 @@ def expected_neg_loses_digit(x, tneg):
 def run_values(ctx, suite, vals, exe, model_idx=None):
     """vals: list of (tag, ty, v) with v int (ty 1,2) or float (ty 3,4).
     model_idx: indices that also go through the extracted model (None = all)"""
-    CH = 40000
+    CH = 100000
     texts = {}
     nmodel = 0
     for off in range(0, len(vals), CH):
@@ -430,7 +445,7 @@ def run_values(ctx, suite, vals, exe, model_idx=None):
                 sig = 'C16/single-negative-loses-digit'
             else:
                 sig = f'C16/negation-differs({TYN[ty]},{fp},{fn})'
-            ctx.report(sig, {'suite': suite, 'type': TYN[ty], 'value': repr(v), 'bits': fb(v),
+            report(ctx, sig, {'suite': suite, 'type': TYN[ty], 'value': repr(v), 'bits': fb(v),
                              'text_pos': tp, 'text_neg': tn}, True)
     keys = set((ty, (v if ty < 3 else fb(v))) for _, ty, v in vals)
     ctx.count(suite, len(vals), keys)
@@ -447,7 +462,7 @@ def judge_value(ctx, suite, tag, ty, v, case, raw, mo, ys):
     det = {'suite': suite, 'family': tag, 'type': TYN[ty], 'value': repr(v), 'case': case[:2],
            'impl': raw}
     if 'exc' in raw and 'text' not in raw:
-        ctx.report(f'C16/format_number-raises({raw["exc"]},{TYN[ty]})', det, True)
+        report(ctx, f'C16/format_number-raises({raw["exc"]},{TYN[ty]})', det, True)
         return
     t = raw['text']
     if mo is not None:
@@ -456,7 +471,7 @@ def judge_value(ctx, suite, tag, ty, v, case, raw, mo, ys):
     nrd, ninp, nval = norm_rd(raw['read']), norm_rd(raw['input']), norm_val(raw['val'])
     # --- the two call sites show the same text (PRINT adds one blank and the line end)
     if raw.get('ntos') != t or raw.get('print') != t + ' \r\n':
-        ctx.report(f'C16/print-str-differ({TYN[ty]})', det, True)
+        report(ctx, f'C16/print-str-differ({TYN[ty]})', det, True)
     # --- property, on the behaviour of the real code
     bad = False
     if ty < 3:
@@ -465,14 +480,14 @@ def judge_value(ctx, suite, tag, ty, v, case, raw, mo, ys):
             ctx.broken.append(f'oracle {suite}: Coq plain_int_text and the harness disagree on {t!r}')
         if t != want:
             bad = True
-            ctx.report(f'C16/int-text-not-plain-decimal({TYN[ty]})', det, True)
+            report(ctx, f'C16/int-text-not-plain-decimal({TYN[ty]})', det, True)
         for path, nr in (('READ', nrd), ('INPUT', ninp)):
             if nr != [0, [ty, v]]:
                 bad = True
-                ctx.report(f'C16/int-readback-wrong({path},{TYN[ty]})', det, True)
+                report(ctx, f'C16/int-readback-wrong({path},{TYN[ty]})', det, True)
         if nval != [0, fb(float(v))]:
             bad = True
-            ctx.report(f'C16/int-readback-wrong(VAL,{TYN[ty]})', det, True)
+            report(ctx, f'C16/int-readback-wrong(VAL,{TYN[ty]})', det, True)
     else:
         form = form_of(t)
         pv, parsed = py_verdict(v, t)
@@ -483,7 +498,7 @@ def judge_value(ctx, suite, tag, ty, v, case, raw, mo, ys):
         limit = 7 if ty == 3 else 17
         if not pv[0]:
             bad = True
-            ctx.report(f'C16/text-not-a-decimal-numeral({TYN[ty]})', det, True)
+            report(ctx, f'C16/text-not-a-decimal-numeral({TYN[ty]})', det, True)
         else:
             if pv[1] > limit:
                 bad = True
@@ -491,14 +506,14 @@ def judge_value(ctx, suite, tag, ty, v, case, raw, mo, ys):
                     sig = 'C16/single-exponent-form-unrounded'
                 else:
                     sig = f'C16/too-many-digits({TYN[ty]},{form},{pv[1]})'
-                ctx.report(sig, det, True)
+                report(ctx, sig, det, True)
             if not pv[2]:
                 bad = True
                 p2 = 'pow2' if is_pow2(v) else 'not-pow2'
-                ctx.report(f'C16/beyond-half-unit({TYN[ty]},{form},{p2})', det, True)
+                report(ctx, f'C16/beyond-half-unit({TYN[ty]},{form},{p2})', det, True)
             if not pv[3]:
                 bad = True
-                ctx.report(f'C16/wrong-sign({TYN[ty]},{form})', det, True)
+                report(ctx, f'C16/wrong-sign({TYN[ty]},{form})', det, True)
             # read-back at the same type
             for i, (path, r, nr) in enumerate((('READ', raw['read'], nrd), ('INPUT', raw['input'], ninp),
                                                ('VAL', raw['val'], nval))):
@@ -512,11 +527,11 @@ def judge_value(ctx, suite, tag, ty, v, case, raw, mo, ys):
                                           f'{pc} disagree on {t!r} x={v!r} y={y!r}')
                     if not pc:
                         bad = True
-                        ctx.report(f'C16/readback-imprecise({path},{TYN[ty]},{form})',
+                        report(ctx, f'C16/readback-imprecise({path},{TYN[ty]},{form})',
                                    dict(det, readback=repr(y)), True)
                     elif ty == 4 and y != v:
                         bad = True
-                        ctx.report(f'C16/double-readback-not-identical({path},{form})',
+                        report(ctx, f'C16/double-readback-not-identical({path},{form})',
                                    dict(det, readback=repr(y)), True)
                 else:
                     bad = True
@@ -527,7 +542,7 @@ def judge_value(ctx, suite, tag, ty, v, case, raw, mo, ys):
                         sig = f'C16/val-host-SyntaxError(integer-text-beyond-LONG,{TYN[ty]})'
                     else:
                         sig = f'C16/readback-fails({path},{TYN[ty]},{form},{json.dumps(r[:2])})'
-                    ctx.report(sig, det, True)
+                    report(ctx, sig, det, True)
     # --- tie: the model describes the code
     if mo is None:
         return
@@ -536,7 +551,7 @@ def judge_value(ctx, suite, tag, ty, v, case, raw, mo, ys):
                                   else ['other', raw.get('ntos')], mntos))
     for name, a, b in ties:
         if a != b:
-            ctx.report(f'C16/tie-{name}({TYN[ty]})', dict(det, impl_norm=a, model_out=b), bad)
+            report(ctx, f'C16/tie-{name}({TYN[ty]})', dict(det, impl_norm=a, model_out=b), bad)
 
 
 # ---------------------------------------------------------------------------
@@ -653,7 +668,7 @@ def run_programs(ctx, tier, texts_by_value):
     cases = []
     for (ty, v), t in zip(picks, traw):
         if not isinstance(t, str):
-            ctx.report(f'C16/format_number-raises({TYN[ty]})', {'value': repr(v), 'impl': t}, True)
+            report(ctx, f'C16/format_number-raises({TYN[ty]})', {'value': repr(v), 'impl': t}, True)
             continue
         for kind, src, lines in programs_for(ty, v, t):
             for level in (0, 1, 2):
@@ -688,18 +703,18 @@ def judge_program(ctx, c, raw):
            'src': c['src'], 'lines': c['lines'], 'level': c['level'], 'debug': c['debug'], 'impl': raw}
     cfg = f"O{c['level']}{'g' if c['debug'] else ''}"
     if 'out' not in raw:
-        ctx.report(f'C16/program-does-not-compile({c["kind"]},{TYN[ty]},{raw.get("exc")})', det, True)
+        report(ctx, f'C16/program-does-not-compile({c["kind"]},{TYN[ty]},{raw.get("exc")})', det, True)
         return
     lines = raw['out'].split('\r\n')
     # line 0 (after the INPUT echo is absent: the scripted terminal prints nothing) = PRINT x
     first = lines[0] if lines else None
     if first != t + ' ':
-        ctx.report(f'C16/compiled-PRINT-differs-from-format_number({TYN[ty]},{cfg})', det, True)
+        report(ctx, f'C16/compiled-PRINT-differs-from-format_number({TYN[ty]},{cfg})', det, True)
         return
     clean = raw['status'] == 'halt' and raw['outcome'][1] is None and raw['exc'] is None
     if c['kind'] == 'print-str-val':
         if len(lines) < 3 or lines[1] != t or lines[2] != '<' + t + '>':
-            ctx.report(f'C16/print-str-differ({TYN[ty]})', det, True)
+            report(ctx, f'C16/print-str-differ({TYN[ty]})', det, True)
             return
         back = lines[3] if len(lines) > 4 else None
         path = 'VAL'
@@ -730,12 +745,13 @@ def judge_program(ctx, c, raw):
             sig = f'C16/compiled-readback-differs({path},{TYN[ty]},{form})'
     else:
         sig = f'C16/compiled-readback-differs({path},{TYN[ty]},{form})'
-    ctx.report(sig, det, True)
+    report(ctx, sig, det, True)
 
 
 # ---------------------------------------------------------------------------
 
 def main(tier, seed):
+    _SEEN.clear()
     ctx = Ctx(PROP, tier, seed, 'proof')
     ctx.trusted_base = [
         'Coq 8.16.1 kernel (coqc, full .vo build; vm_compute in the Examples and the _refuted witnesses)',
@@ -773,7 +789,7 @@ def main(tier, seed):
     # CPU budget of the extracted model on the float families (seconds, summed over
     # the parallel model processes): one full job costs 20 ms (SINGLE) to 300 ms (DOUBLE
     # at the ends of the exponent range)
-    budget = 300 if tier == 'quick' else 5000
+    budget = 300 if tier == 'quick' else 4000
     midx = select_for_model(ctx, fam, budget)
     ctx.rule.append(f'B: LONG: +-(2^e + {{-1,0,1}}), +-(10^e + {{-1,0,1}}), limits, seeded random widths '
                     f'({len(longs)} values); SINGLE and DOUBLE ({len(fam)} values, closed under negation): every '
